@@ -32,12 +32,17 @@ type pkgWorld struct {
 	reg     map[string]*regEntry
 	marker  int
 	pCount  map[string]int // /p/ package path -> expected value of its Counter variable
+	wrapTodo []string      // names nm whose gno.land/p/sim/<nm>/internal/core exists and whose wrapper gno.land/p/sim/<nm> does not yet
+	targets  []pokeTarget  // (importable /p/ package, function that mutates /p/ state)
+	pokers   []string      // deployed realms with a crossing Poke() that mutates /p/ state when CALLED (their init does not)
 }
+
+type pokeTarget struct{ path, fn string }
 
 func (w *pkgWorld) src(name string, private bool) map[string]string {
 	w.marker++
 	files := map[string]string{
-		name + ".gno": fmt.Sprintf("package %s\n\n// marker %d\nvar Counter = %d\n\nfunc Inc() int { Counter++; return Counter }\n\nfunc Marker() int { return %d }\n", name, w.marker, w.marker, w.marker),
+		name + ".gno": fmt.Sprintf("package %s\n\n// marker %d\nvar Counter = %d\n\nfunc Inc() int { Counter++; return Counter }\n\nfunc Marker() int { return %d }\n\n// state behind a pointer receiver: a method call borrows the storage realm of its receiver\ntype Ctr struct{ n int }\n\nvar C = &Ctr{n: %d}\n\nfunc (c *Ctr) Inc() int { c.n++; return c.n }\n\nfunc Bump() int { return C.Inc() }\n\nfunc CN() int { return C.n }\n", name, w.marker, w.marker, w.marker, w.marker),
 	}
 	if w.c.Intn(3) == 0 {
 		files[name+"_test.gno"] = fmt.Sprintf("package %s\n\nimport \"testing\"\n\nfunc TestMarker(t *testing.T) { if Marker() != %d { t.Fail() } }\n", name, w.marker)
@@ -128,6 +133,10 @@ func (w *pkgWorld) checkRegistry(n *node, when string) {
 			w.fail("C12", "p-package-state-mutated", "%s: %s.Counter = %s (err %v), initialised to %s", when, p, v, err, want)
 			return
 		}
+		if v, err = n.qeval(p, "CN()"); err != nil || v != want {
+			w.fail("C12", "p-package-state-mutated", "%s: %s.C.n = %s (err %v), initialised to %s", when, p, v, err, want)
+			return
+		}
 	}
 }
 
@@ -163,6 +172,12 @@ func runPackages(c *kernel.Choices, p kernel.Params) *kernel.Result {
 
 	nblocks := 4 + c.Intn(8)
 	var names []string
+	// half of the runs start with a scripted chain (internal /p/ package, its wrapper, two realms that can poke them,
+	// then the pokes), the rarest path of the random mix; the remaining steps are drawn as usual
+	var script []string
+	if c.Bool() {
+		script = []string{"pint", "pwrap", "poker-inner", "poker", "poke", "poke", "poke"}
+	}
 	c.Event("packages run: %d blocks", nblocks)
 	for bi := 0; bi < nblocks && !w.stop; bi++ {
 		w.height++
@@ -172,7 +187,15 @@ func runPackages(c *kernel.Choices, p kernel.Params) *kernel.Result {
 		ntx := 1 + c.Intn(3)
 		for i := 0; i < ntx && !w.stop; i++ {
 			signer := []string{"alice", "bob", "carol"}[c.Intn(3)]
-			kind := c.Weighted([]int{4, 3, 2, 2, 2, 2, 2, 2})
+			kind := c.Weighted([]int{4, 3, 2, 2, 2, 2, 2, 2, 2, 3})
+			step := ""
+			if len(script) > 0 {
+				step, script = script[0], script[1:]
+				kind = map[string]int{"pint": 0, "pwrap": 0, "poker-inner": 8, "poker": 8, "poke": 9}[step]
+			}
+			wrapOf := ""
+			var newTargets []pokeTarget
+			pokerDeploy := false
 			var t *simTx
 			var path string
 			var files map[string]string
@@ -201,13 +224,34 @@ func runPackages(c *kernel.Choices, p kernel.Params) *kernel.Result {
 			switch kind {
 			case 0: // fresh public realm or /p/ package
 				prefix := "gno.land/r/sim/"
-				if c.Intn(3) == 0 {
+				if c.Intn(3) == 0 || step != "" {
 					prefix = "gno.land/p/sim/"
 				}
 				var nm string
+				if prefix == "gno.land/p/sim/" && len(w.wrapTodo) > 0 && (c.Bool() || step == "pwrap") {
+					// the importable wrapper of an internal /p/ package deployed earlier
+					nm = w.wrapTodo[0]
+					path = prefix + nm
+					files = w.src(nm, false)
+					files["wrap.gno"] = fmt.Sprintf("package %s\n\nimport core \"gno.land/p/sim/%s/internal/core\"\n\nfunc IncInner() int { return core.Inc() }\n\nfunc BumpInner() int { return core.Bump() }\n\nfunc Inner() int { return core.Counter }\n", nm, nm)
+					wrapOf = nm
+					newTargets = []pokeTarget{{path, "Inc"}, {path, "Bump"}, {path, "IncInner"}, {path, "BumpInner"}}
+					expect, desc = "ok", "wrapper of an internal /p/ package"
+					break
+				}
 				path, nm = fresh(prefix)
 				files = w.src(nm, false)
 				expect, desc = "ok", "fresh public deploy"
+				if prefix == "gno.land/p/sim/" {
+					if c.Intn(3) == 0 || step == "pint" { // a /p/ package below an internal/ path element (importable only from gno.land/p/sim/<nm>/...)
+						path = prefix + nm + "/internal/core"
+						files = w.src("core", false)
+						wrapOf = "+" + nm
+						desc = "fresh /p/ package under internal/"
+					} else {
+						newTargets = []pokeTarget{{path, "Inc"}, {path, "Bump"}}
+					}
+				}
 			case 1: // colliding public path
 				path = existing(func(e *regEntry) bool { return !e.private })
 				if path == "" {
@@ -265,6 +309,52 @@ func runPackages(c *kernel.Choices, p kernel.Params) *kernel.Result {
 				files = map[string]string{nm + ".gno": fmt.Sprintf("package %s\n\nimport px %q\n\nvar Seen int\n\nfunc init() { Seen = px.Inc() }\n\nfunc Poke(cur realm) int { Seen = px.Inc(); return Seen }\n", nm, pp)}
 				desc = "realm mutating /p/ state in init"
 				expect = "fail"
+			case 8: // a realm whose init leaves /p/ alone but whose crossing Poke() mutates /p/ state when called later
+				if len(w.targets) == 0 {
+					continue
+				}
+				tg := w.targets[c.Intn(len(w.targets))]
+				if step == "poker-inner" {
+					for _, x := range w.targets {
+						if x.fn == "BumpInner" {
+							tg = x
+						}
+					}
+				}
+				var nm string
+				path, nm = fresh("gno.land/r/sim/")
+				files = map[string]string{nm + ".gno": fmt.Sprintf("package %s\n\nimport px %q\n\nvar Seen int\n\nfunc Poke(cur realm) int { Seen = px.%s(); return Seen }\n\nfunc Look(cur realm) int { Seen++; return px.Marker() }\n", nm, tg.path, tg.fn)}
+				desc = fmt.Sprintf("realm that can poke %s.%s", tg.path, tg.fn)
+				expect = "ok"
+				pokerDeploy = true
+			case 9: // MsgCall into a poker realm: the mutation of /p/ state must abort the tx (Look is the control: must pass)
+				if len(w.pokers) == 0 {
+					continue
+				}
+				pk := w.pokers[c.Intn(len(w.pokers))]
+				fn := "Poke"
+				if c.Intn(4) == 0 {
+					fn = "Look"
+				}
+				a := w.acts[signer]
+				tx := std.Tx{Msgs: []std.Msg{vm.NewMsgCall(a.addr, nil, pk, fn, nil)}, Fee: std.NewFee(100_000_000, std.NewCoin("ugnot", 1_000_000))}
+				signTx(&tx, []*actor{a}, false)
+				t = &simTx{signer: signer, bytes: encTx(tx)}
+				desc = fmt.Sprintf("MsgCall %s.%s", pk, fn)
+				path = pk
+				r := resultOf(w.ref.app.DeliverTx(deliverReq(t.bytes)))
+				c.Event("h%d %s by %s -> err=%s", b.Height, desc, signer, r.Err)
+				if r.GasW != 0 || r.ok() {
+					w.acts[t.signer].seq++
+				}
+				if fn == "Poke" && r.ok() {
+					w.fail("C12", "p-package-mutation-accepted", "height %d: %s succeeded although it mutates the state of a /p/ package after initialisation", b.Height, desc)
+				} else if fn == "Look" && !r.ok() {
+					kernel.Harnessf("height %d: control call %s failed: %s %s", b.Height, desc, r.Err, clip(r.Log, 400))
+				} else if fn == "Poke" {
+					w.r.Probe("p_mutation_calls_refused")
+				}
+				continue
 			case 7: // call Inc on an existing public realm (state changes, code must not)
 				ex := existing(func(e *regEntry) bool { return !e.private && strings.Contains(boxPath+"x", "/r/") })
 				if ex == "" || !strings.Contains(ex, "/r/") {
@@ -302,6 +392,17 @@ func runPackages(c *kernel.Choices, p kernel.Params) *kernel.Result {
 				w.reg[path] = &regEntry{files: files, private: private, creator: w.acts[signer].addr.String(), height: b.Height}
 				if strings.HasPrefix(path, "gno.land/p/") {
 					w.pCount[path] = w.marker
+				}
+				if strings.HasPrefix(wrapOf, "+") {
+					w.wrapTodo = append(w.wrapTodo, wrapOf[1:])
+					w.r.Probe("p_internal_deployed")
+				} else if wrapOf != "" {
+					w.wrapTodo = w.wrapTodo[1:]
+					w.r.Probe("p_internal_wrapper_deployed")
+				}
+				w.targets = append(w.targets, newTargets...)
+				if pokerDeploy {
+					w.pokers = append(w.pokers, path)
 				}
 				w.r.Probe("deploys_accepted")
 				if private {
